@@ -132,17 +132,17 @@ def rd_of(fn):
 
 
 class _Expander(ast.NodeTransformer):
-    def __init__(self, rd, nid, depth):
-        self.rd, self.nid, self.depth = rd, nid, depth
+    def __init__(self, rd, nid, depth, stop=()):
+        self.rd, self.nid, self.depth, self.stop = rd, nid, depth, stop
 
     def visit_Name(self, node):
-        if not isinstance(node.ctx, ast.Load) or self.depth <= 0:
+        if not isinstance(node.ctx, ast.Load) or self.depth <= 0 or node.id in self.stop:
             return node
         sv = self.rd.single_value(self.nid, node.id)
         if sv is None:
             return node
         val, d = sv
-        sub = _Expander(self.rd, d, self.depth - 1)
+        sub = _Expander(self.rd, d, self.depth - 1, self.stop)
         return sub.visit(copy.deepcopy(val))
 
     def visit_Lambda(self, node):
@@ -154,10 +154,10 @@ class _Expander(ast.NodeTransformer):
     visit_SetComp = visit_DictComp = visit_GeneratorExp = visit_ListComp
 
 
-def expand(fn, nid, expr, depth=6):
+def expand(fn, nid, expr, depth=6, stop=()):
     """Copy of `expr` (evaluated at CFG node nid) with local names replaced by their unique
-    reaching definition, recursively."""
-    return _Expander(rd_of(fn), nid, depth).visit(copy.deepcopy(expr))
+    reaching definition, recursively (names in `stop` are kept)."""
+    return _Expander(rd_of(fn), nid, depth, tuple(stop)).visit(copy.deepcopy(expr))
 
 
 def call_name(call):
